@@ -123,6 +123,7 @@ func init() {
 				where := ""
 				if idx < len(spc.Parts) {
 					spc.Parts[idx].Fails = true
+					spc.Parts[idx].Deleted = false // a deleted part's producer never runs
 					if before {
 						spc.Parts[idx].Content = nil
 						spc.Parts[idx].chunks = nil
